@@ -67,6 +67,13 @@ RectFails(e) ==
      \cup (IF d = 2 /\ \E k \in 1..m : tuples[k] # <<e.axes[1][((k - 1) \div Len(e.axes[2])) + 1], e.axes[2][((k - 1) % Len(e.axes[2])) + 1]>>
            THEN {"ProductOrder|coord_sequence_from_rect_grid"} ELSE {})
      \cup (IF d = 2 /\ (o.geoseq[1] # o.seq[1] \/ o.geoseq[2] # o.seq[2]) THEN {"CartesianProduct|GeoGrid.coord_sequence_from_rect_grid"} ELSE {})
+     \* the grid objects built from the axes have exactly these nodes (time axis of 3 samples)
+     \cup (IF o.regseq # o.seq \/ o.regN # m \/ o.regsize # <<3, m>> THEN {"CartesianProduct|Grid.RegularGrid"} ELSE {})
+     \cup (IF d = 2 /\ o.georegseq # <<o.seq[1], o.seq[2]>> THEN {"CartesianProduct|GeoGrid.RegularGrid"} ELSE {})
+     \* longitudes of the 0..360 convention above 180 are moved by -360, the others kept
+     \cup (IF d = 2 /\ (Len(o.lon180) # Len(o.lon360) \/ \E k \in 1..Len(o.lon360) :
+                 o.lon180[k] # (IF o.lon360[k] > 180 THEN o.lon360[k] - 360 ELSE o.lon360[k]))
+           THEN {"LonConvention|convert_lon_coordinates"} ELSE {})
 LookFails(e) ==
   LET n == Len(e.lat)  k == e.obs.node + 1
       exact == \A a \in 1..n : ExactPair(e.lat[a], e.lon[a], e.q[1], e.q[2])
